@@ -38,6 +38,7 @@ import (
 	"net/http/httptest"
 	"runtime"
 	"strings"
+	"sync"
 	"sync/atomic"
 	"time"
 
@@ -377,7 +378,10 @@ func (r *runner) arrive(abandoned bool) (pass bool, err error) {
 
 // burst lets k requests arrive together; the ones passed on stay in flight.
 func (r *runner) burst(k int) (passed int64, err error) {
-	start := make(chan struct{})
+	// a tight barrier: every goroutine announces itself, then spins on one flag, so that they really arrive together
+	var start int32
+	var ready sync.WaitGroup
+	ready.Add(k)
 	fell := make(chan struct{}, k)
 	now := nowNS()
 	for i := 0; i < k; i++ {
@@ -386,7 +390,10 @@ func (r *runner) burst(k int) (passed int64, err error) {
 		req = req.WithContext(context.WithValue(req.Context(), reqKey{}, rq))
 		w := httptest.NewRecorder()
 		go func() {
-			<-start
+			ready.Done()
+			for atomic.LoadInt32(&start) == 0 {
+				runtime.Gosched()
+			}
 			r.front.ServeHTTP(w, req)
 			if atomic.LoadInt32(&rq.fell) == 1 {
 				fell <- struct{}{}
@@ -394,7 +401,8 @@ func (r *runner) burst(k int) (passed int64, err error) {
 			rq.done <- struct{}{}
 		}()
 	}
-	close(start)
+	ready.Wait()
+	atomic.StoreInt32(&start, 1)
 	timeout := time.After(waitLimit)
 	for decided := 0; decided < k; decided++ {
 		select {
@@ -838,7 +846,10 @@ func (c *cbComp) Run(h *hlib.History) ([]hlib.Mon, bool) {
 
 		case 4: // k arrivals together
 			shielded := prev == stTripped && shieldOn && now < shieldEnd
-			if prev != stStandby && !shielded {
+			// ... or at the end of a recovery: the first of them finds the recovery period over and puts the breaker back to
+			// standby, all of them pass (no ramp is consulted once the period is over)
+			herd := prev == stRecovering && inRec && recD > 0 && now > recStart+recD
+			if prev != stStandby && !shielded && !herd {
 				h.Ops[step] = []int64{3}
 				h.Obs = append(h.Obs, []int64{})
 				continue
@@ -851,10 +862,19 @@ func (c *cbComp) Run(h *hlib.History) ([]hlib.Mon, bool) {
 			}
 			r.settle()
 			cur := r.state()
+			if herd {
+				expS++
+				inRec = false
+				hlib.Count("bursts_at_the_end_of_a_recovery", 1)
+			}
 			nT, nS := r.effects(expT, expS)
 			h.Obs = append(h.Obs, []int64{passed, cur, nT, nS})
 			hlib.Count("bursts", 1)
-			if shielded {
+			if herd {
+				if passed != k || cur != stStandby {
+					mon("C05", step, "%d requests arriving together after the recovery period is over: %d passed on, state afterwards %d (standby = %d)", k, passed, cur, stStandby)
+				}
+			} else if shielded {
 				hlib.Count("bursts_inside_fallback_period", 1)
 				if passed != 0 {
 					mon("C05", step, "%d requests arriving together %d ns after the trip (fallback duration %d ns): %d reached the protected handler", k, now-tripAt, fb, passed)
@@ -862,7 +882,7 @@ func (c *cbComp) Run(h *hlib.History) ([]hlib.Mon, bool) {
 			} else if passed != k {
 				mon("C05", step, "%d requests arriving together in standby: only %d passed on", k, passed)
 			}
-			if cur != prev {
+			if cur != prev && !herd {
 				mon("C05", step, "a burst of arrivals moved the state %d -> %d", prev, cur)
 			}
 			if nT != expT || nS != expS {
@@ -1210,6 +1230,15 @@ func (c *cbComp) Gen(rng *rand.Rand, idx int, tier string, targeted bool) hlib.H
 			perr = []int{0, 20, 50, 80, 100}[rng.Intn(5)]
 		case r < 12: // burst
 			if rng.Intn(3) == 0 {
+				together()
+				break
+			}
+			if rng.Intn(3) == 0 && fb > 0 && recD > 0 && fb < 100000*second && recD < 100000*second {
+				// past the fallback period, one arrival (starts a recovery if the breaker was tripped), past the recovery
+				// period, then a herd
+				tick(fb + 1)
+				arrive()
+				tick(recD + 1)
 				together()
 				break
 			}
